@@ -27,7 +27,7 @@ LEVEL = "model_checking"
 TRACE = "Trace_Reference"
 REQUIRE_CLAUSES = ["pool_reject_mismatch", "pool_accepts_matching", "pool_bins", "pool_sexes_given",
                    "pool_sexes_inferred", "pool_log2_orchestration", "pool_spread_orchestration",
-                   "pool_log2_estimator", "pool_spread_estimator", "pool_depth_only", "pool_sex_levels",
+                   "pool_log2_estimator", "pool_spread_estimator", "pool_depth_only", "pool_sex_levels", "pool_gc",
                    "flat_noerr", "flat_bins", "flat_log2", "flat_gc", "flat_rmask", "gc_value", "rmask_value"]
 
 BASES = [str(k) for k in range(1, 23)] + ["X", "Y", "M"]      # chromosome id 1..25 -> base name (Reference.BaseNames)
@@ -171,7 +171,7 @@ def execute_pooled(inp):
             rows = _block_bins(inp, smp, "t")
             gc = inp["tgc"] if (inp["gcsrc"] == "cnn" and not smp["tmod"]) else None
             order = None
-            if smp.get("tperm"):
+            if smp.get("tperm") and len(smp["tperm"]) == len(rows):     # rows written in another order (the reader sorts)
                 order = smp["tperm"]
             _write_cnn(p, pfx, rows, smp["tv"], smp["tdz"], U, gc=gc, order=order)
             tf.append(p)
@@ -301,7 +301,8 @@ def gen_cohort(rng, *, n, sexes, tb, ab, anti, U=64, A=0, hapx=False, given="non
         tv, tdz = vals(tb, prof_t)
         av, adz = vals(ab, prof_a) if anti == "files" else ([], [])
         samples.append({"name": names[j], "sex": sexes[j], "level": levels[j], "tv": tv, "tdz": tdz, "tmod": [],
-                        "av": av, "adz": adz, "amod": [], "aempty": anti == "empty", "aestyle": rng.choice([1, 2])})
+                        "av": av, "adz": adz, "amod": [], "aempty": anti == "empty", "aestyle": rng.choice([1, 2]),
+                        "tperm": rng.sample(range(len(tb)), len(tb)) if rng.random() < 0.2 else []})
     perm = list(range(n))
     rng.shuffle(perm)
     inp = {"op": "pooled", "pfx": pfx, "hapx": bool(hapx), "given": given, "fix": [bool(x) for x in fix], "U": U, "A": A,
@@ -456,13 +457,13 @@ def _protect_autos(inp):
     return inp
 
 
-def scen_sexlevels(rng, infer, fixon=False):
+def scen_sexlevels(rng, infer, fixon=False, fasta=False):
     """clean flat levels (+ noise): the chrX / chrY consequence clauses; sexes inferred (any mix) or given (one sex)"""
     n = rng.choice([1, 2, 3, 5, 8])
     U = 1024
     A = rng.choice([0, 4, 64, 200, 256])
     if infer:
-        nx, ny = rng.choice([40, 44, 50]), rng.choice([0, 0, 1, 2, 4])
+        nx, ny = rng.choice([40, 44, 50]), rng.choice([0, 1, 1, 2, 4])
         sexes = _sexes(rng, n)
         given = "none"
     else:
@@ -486,7 +487,7 @@ def scen_sexlevels(rng, infer, fixon=False):
             ab += [[24, 10**7, 10**7 + 2000, "Antitarget"]]
         fix = rng.choice([(True, True, True), (True, False, False), (False, True, False), (True, True, False)])
         gcsrc = "cnn" if fix[0] else "none"
-        if not infer and rng.random() < 0.4:
+        if fasta:
             # gc / rmask from a real FASTA: compact coordinates so that the contigs stay small
             gcsrc = "fasta"
             fix = rng.choice([(True, True, True), (True, False, True), (False, False, True), (True, False, False)])
@@ -730,7 +731,7 @@ def run(ctx: Ctx):
                 "sequence >= 1 character).")
     records = []
     # ---- direction 1
-    scopes = [("pool", dict(max_s=3 if thorough else 2, nvar=4 if thorough else 2)),
+    scopes = [("pool", dict(max_s=3 if thorough else 2, nvar=3 if thorough else 2)),
               ("mismatch", dict(nvar=3)), ("flat", {}), ("gc", dict(seqlen=5 if thorough else 4))]
     names = []
     for mode, kw in scopes:
@@ -756,13 +757,14 @@ def run(ctx: Ctx):
                       "subset of {1,2,X,Y,M} x antitargets x reference sex x naming x FASTA; gc: every sequence of "
                       "<= SeqLen characters over {A,C,G,T,a,c,g,t,N,n})")
     # ---- direction 2
-    m = 8 if thorough else 1
+    m = 6 if thorough else 1
     inputs = []
     inputs += [scen_exact(rng) for _ in range(60 * m)]
     inputs += [scen_exact(rng, n=1) for _ in range(6 * m)]
     inputs += [scen_sexlevels(rng, infer=False) for _ in range(16 * m)]
     inputs += [scen_sexlevels(rng, infer=True) for _ in range(8 * m)]
-    inputs += [scen_sexlevels(rng, infer=rng.random() < 0.4, fixon=True) for _ in range(14 * m)]
+    inputs += [scen_sexlevels(rng, infer=rng.random() < 0.4, fixon=True) for _ in range(10 * m)]
+    inputs += [scen_sexlevels(rng, infer=False, fixon=True, fasta=True) for _ in range(5 * m)]
     inputs += [scen_depthonly(rng) for _ in range(14 * m)]
     inputs += [scen_depthonly(rng, fixon=True) for _ in range(6 * m)]
     inputs += [scen_mismatch(rng) for _ in range(30 * m)]
